@@ -54,7 +54,7 @@ def run_batch(tool, mode, jobs, per_job_timeout=20.0, chunk=64):
             return
         if len(js) == 1:
             kind = "timeout" if rc == 124 else ("fatal" if rc != 0 else "noresult")
-            tail = se[-1500:]
+            tail = se[:3000] + "\n...\n" + se[-1500:]
             if "stack overflow" in se or "goroutine stack exceeds" in se:
                 kind = "stack_overflow"
             elif "out of memory" in se or "cannot allocate memory" in se:
